@@ -1874,6 +1874,9 @@ func (ts *Service) updateAllAssociatedTasks(old, new Template, taskIds []string)
 		return fmt.Errorf("failed to parse new tickscript: %v", err)
 	}
 
+	// The dbrps of the tasks before the update, needed to rollback.
+	originalDBRPs := make(map[string][]DBRP, len(taskIds))
+
 	// Setup rollback function
 	defer func() {
 		if i == len(taskIds) {
@@ -1893,14 +1896,9 @@ func (ts *Service) updateAllAssociatedTasks(old, new Template, taskIds []string)
 			task.TemplateID = old.ID
 			task.TICKscript = old.TICKscript
 			task.Type = old.Type
-			if len(dbrpsFromProgram(oldPn)) > 0 {
-				task.DBRPs = []DBRP{}
-				for _, dbrp := range dbrpsFromProgram(oldPn) {
-					task.DBRPs = append(task.DBRPs, DBRP{
-						Database:        dbrp.Database,
-						RetentionPolicy: dbrp.RetentionPolicy,
-					})
-				}
+			if original, ok := originalDBRPs[taskId]; ok {
+				// Restore the dbrps the task had, they may have been its own and not the old template's.
+				task.DBRPs = original
 			}
 			if err := ts.tasks.Replace(task); err != nil {
 				ts.diag.Error("error rolling back associated task", err, keyvalue.KV("task", taskId))
@@ -1932,6 +1930,7 @@ func (ts *Service) updateAllAssociatedTasks(old, new Template, taskIds []string)
 			}
 		}
 
+		originalDBRPs[taskId] = task.DBRPs
 		task.TemplateID = new.ID
 		task.TICKscript = new.TICKscript
 		task.Type = new.Type
